@@ -171,6 +171,12 @@ class SymEnv(Env):
             if r == "unsat":
                 self.outcomes.append(Outcome(clause, props, "discharged", ms=(time.time() - t0) * 1000))
                 return True
+            if r == "sat":
+                # refuted (the solver found a model but it is not extracted from the external process): a failed obligation
+                # without its own witness; the lemma's native body / probes look for a replayable input
+                self.outcomes.append(Outcome(clause, props, "failed", holes={}, ms=(time.time() - t0) * 1000,
+                                             internal=self._internal or "refuted by %s, no model extracted" % why))
+                return False
             self.outcomes.append(Outcome(clause, props, "undecided", ms=(time.time() - t0) * 1000, detail="external:%s" % why))
             return False
         s.push()
